@@ -3,6 +3,7 @@ package main
 // Calls: builtins, contracts, inlining, unknown callees, defer, go.
 
 import (
+	"os"
 	"fmt"
 	"go/token"
 	"go/types"
@@ -18,6 +19,9 @@ func (x *Exec) calleeKey(cc *ssa.CallCommon) (key string, callee *ssa.Function) 
 		name := typeName(rt)
 		if n, ok := rt.(*types.Named); ok && n.Obj().Pkg() != nil {
 			short := x.P.Short[n.Obj().Pkg().Path()]
+			if short == "" {
+				short = aliasPkgs[n.Obj().Pkg().Path()]
+			}
 			if short == "" {
 				short = n.Obj().Pkg().Path()
 			}
@@ -74,6 +78,26 @@ func (x *Exec) execCall(fr *Frame, st *State, cc *ssa.CallCommon, site ssa.Value
 				return x.applyContract(fr, st, fc, nil, sig, short+"."+nt.Obj().Name(), args, rt, pos)
 			}
 		}
+		// a func-typed struct field may carry a contract every value stored in it is assumed to satisfy
+		// ("func T.field" with the flag functype)
+		if u, ok := cc.Value.(*ssa.UnOp); ok && u.Op == token.MUL {
+			if fa, ok := u.X.(*ssa.FieldAddr); ok {
+				if pt, ok := fa.X.Type().Underlying().(*types.Pointer); ok {
+					if nt, ok := pt.Elem().(*types.Named); ok && nt.Obj().Pkg() != nil {
+						if stt, ok := nt.Underlying().(*types.Struct); ok {
+							short := x.P.Short[nt.Obj().Pkg().Path()]
+							if short == "" {
+								short = strings.TrimPrefix(nt.Obj().Pkg().Path(), mainMod+"/")
+							}
+							k := short + "." + nt.Obj().Name() + "." + stt.Field(fa.Field).Name()
+							if fc := x.C.Funcs[k]; fc != nil && fc.Flags["functype"] {
+								return x.applyContract(fr, st, fc, nil, sig, k, args, rt, pos)
+							}
+						}
+					}
+				}
+			}
+		}
 		return x.unknownCall(fr, st, "dynamic call "+x.srcAt(pos), rt, pos)
 	}
 	if callee != nil {
@@ -91,6 +115,19 @@ func (x *Exec) execCall(fr *Frame, st *State, cc *ssa.CallCommon, site ssa.Value
 		return x.applyContract(fr, st, fc, nil, sig, key, args, rt, pos)
 	}
 	return x.unknownCall(fr, st, key, rt, pos)
+}
+
+// libraryKey: the contract key names a function or interface method of a package outside the verified scope.
+func (x *Exec) libraryKey(key string) bool {
+	first := key
+	if i := strings.LastIndex(key, "/"); i >= 0 {
+		return true // a full import path: never a scope package's short name
+	}
+	if i := strings.Index(first, "."); i >= 0 {
+		first = first[:i]
+	}
+	_, in := scopePkgs[first]
+	return !in
 }
 
 func (x *Exec) callFunction(fr *Frame, st *State, callee *ssa.Function, args []Value, bindings []Value, rt types.Type, pos token.Pos, key string) Value {
@@ -237,6 +274,23 @@ func (x *Exec) addMod(env *SpecEnv, m *ModSet, e Expr) {
 		}
 	case *ECall:
 		id, _ := e.Fun.(*EIdent)
+		if id != nil && id.Name == "elemsfrom" && len(e.Args) == 2 {
+			// elemsfrom(s, k): of the backing array of s only the positions off(s)+k and above
+			a := x.eval(env, e.Args[0])
+			sl, ok := a.V.(VSlice)
+			if !ok {
+				sfail("elemsfrom() needs a slice")
+			}
+			k := x.evalInt(env, e.Args[1])
+			et := a.T.G.Underlying().(*types.Slice).Elem()
+			key := "E|" + typeName(et)
+			m.refs[key] = append(m.refs[key], sl.Arr)
+			if m.from == nil {
+				m.from = map[string][]fromRef{}
+			}
+			m.from[key] = append(m.from[key], fromRef{sl.Arr, Add(sl.Off, k)})
+			return
+		}
 		if id == nil || len(e.Args) != 1 {
 			sfail("bad modifies item")
 		}
@@ -265,6 +319,9 @@ func (x *Exec) addMod(env *SpecEnv, m *ModSet, e Expr) {
 			mt := T.G.Underlying().(*types.Map)
 			m.whole["M|"+typeName(mt.Key())+">"+typeName(mt.Elem())] = true
 			return
+		}
+		if id.Name == "elemsfrom" {
+			sfail("elemsfrom(s, k) takes two arguments")
 		}
 		a := x.eval(env, e.Args[0])
 		switch id.Name {
@@ -432,6 +489,9 @@ func (x *Exec) applyContract(fr *Frame, st *State, fc *FuncContract, callee *ssa
 		x.loopsNoMeasure[key+": recursion without decreases"] = true
 	}
 	if fc.Flags["noreturn"] {
+		if cfc := x.C.Funcs[x.P.funcKey(fr.fn)]; cfc != nil && cfc.PanicsWhen != nil && fr.top {
+			x.stopCheck(fr, st, cfc, pos, "stop")
+		}
 		st.pc = False
 		if rt == nil {
 			return nil
@@ -439,6 +499,14 @@ func (x *Exec) applyContract(fr *Frame, st *State, fc *FuncContract, callee *ssa
 		return x.havocValue(st, "ret", rt)
 	}
 	mods := x.buildModSet(env, fc.Modifies, fc.Flags["allocates"])
+	if mods.allocates && os.Getenv("GOVC_NO_ALLOCINFO") == "" {
+		switch {
+		case callee != nil:
+			mods.alloc = x.P.allocSetOf(callee)
+		case fc.Flags["trusted"] && !fc.Flags["functype"] && !strings.Contains(key, "$") && x.libraryKey(key):
+			mods.alloc = allocLib
+		}
+	}
 	var savedBoxes []savedBox
 	if mods.all || mods.whole["B"] {
 		savedBoxes = x.savePrivateBoxes(fr, st)
